@@ -344,10 +344,18 @@ def run_c18(t, tier, res):
     else:
         if t.chance(1, 4):
             # the rule name is not new: an earlier, larger training left its files in the directory
-            older, oopts = trainer.gen_list(t, {"nonascii": t.chance(1, 3), "encoding": enc}, min_lines=20, max_lines=40)
-            oopts = dict(oopts, ngram=opts["ngram"], encoding=enc)
-            older = older + ["zq%dxv%d" % (i, i * 7) for i in range(t.between(5, 40))]
+            if t.chance(1, 2):
+                older, oopts = trainer.gen_list(t, {"nonascii": t.chance(1, 3), "encoding": enc}, min_lines=20, max_lines=40)
+                oopts = dict(oopts, ngram=opts["ngram"], encoding=enc)
+                older = older + ["zq%dxv%d" % (i, i * 7) for i in range(t.between(5, 40))]
+            else:
+                # the same passwords with other frequencies: every rules file keeps its size
+                distinct = list(dict.fromkeys(pws))
+                older = [p for p in distinct for _ in range(t.choice([1, 1, 2, 3, 7]))]
+                oopts = dict(opts)
             tro = trainer.train(older, oopts)
+            if tro.ok:
+                load_omen(os.path.join(tro.rule_dir, "Omen"))         # the guesser looked at the ruleset in between
             res.faults["rule_name_trained_before_with_larger_model"] += 1 if tro.ok else 0
         tr = trainer.train(pws, opts)
     if flavour.get("large"):
